@@ -20,6 +20,7 @@ import (
 	"errors"
 	"runtime"
 
+	"github.com/panjf2000/gnet/v2/internal/vhook"
 	errorx "github.com/panjf2000/gnet/v2/pkg/errors"
 )
 
@@ -30,6 +31,7 @@ func (el *eventloop) rotate() error {
 	}
 
 	err := el.poller.Polling()
+	vhook.Gate("loop.polling-returned", el, el.idx)
 	if errors.Is(err, errorx.ErrEngineShutdown) {
 		el.getLogger().Debugf("main reactor is exiting in terms of the demand from user, %v", err)
 		err = nil
@@ -49,6 +51,7 @@ func (el *eventloop) orbit() error {
 	}
 
 	err := el.poller.Polling()
+	vhook.Gate("loop.polling-returned", el, el.idx)
 	if errors.Is(err, errorx.ErrEngineShutdown) {
 		el.getLogger().Debugf("event-loop(%d) is exiting in terms of the demand from user, %v", el.idx, err)
 		err = nil
@@ -57,6 +60,7 @@ func (el *eventloop) orbit() error {
 	}
 
 	el.closeConns()
+	vhook.Ev("loop.closed", el, el.idx, 0)
 	el.engine.shutdown(err)
 
 	return err
@@ -69,6 +73,7 @@ func (el *eventloop) run() error {
 	}
 
 	err := el.poller.Polling()
+	vhook.Gate("loop.polling-returned", el, el.idx)
 	if errors.Is(err, errorx.ErrEngineShutdown) {
 		el.getLogger().Debugf("event-loop(%d) is exiting in terms of the demand from user, %v", el.idx, err)
 		err = nil
@@ -77,6 +82,7 @@ func (el *eventloop) run() error {
 	}
 
 	el.closeConns()
+	vhook.Ev("loop.closed", el, el.idx, 0)
 	el.engine.shutdown(err)
 
 	return err
